@@ -387,6 +387,18 @@ theorem rds_norm_fold (S : List Str) (cs : List Str) (h : ∀ c ∈ cs, c ≠ []
   rw [normComps, e1', e2, List.reverse_append, dd_reverse, List.reverse_reverse, List.foldl_append,
     rds_fold_dd, rds_fold_normal N _ hN]
 
+/-- what `normpath` leaves of a relative path: `..` segments and names, no empty segment -/
+theorem normComps_segs_nonempty (cs : List Str) (h : ∀ c ∈ cs, c ≠ []) : ∀ c ∈ normComps false cs, c ≠ [] := by
+  obtain ⟨N, k, hN, e1, _⟩ := fold_inv [] cs [] 0 (by simp) h
+  have e1' : cs.foldl (normStep false) [] = N.reverse ++ dd k := by simpa [dd] using e1
+  intro c hc
+  rw [normComps, e1'] at hc
+  simp only [List.reverse_append, List.reverse_reverse, List.mem_append, List.mem_reverse] at hc
+  rcases hc with hc | hc
+  · simp [dd, List.mem_replicate] at hc
+    rw [hc.2]; simp [dotdot]
+  · exact (hN c hc).1
+
 /-- the last segment of a normalised path is the last segment of the path, when that is a name -/
 theorem normComps_getLast (a : Bool) (cs : List Str) (f : Str) (hf : Normal f) :
     (normComps a (cs ++ [f])).getLast? = some f := by
@@ -813,6 +825,7 @@ theorem setHref_edges (vfs : Vfs) (who : Who) : ∀ (fuel : Nat) (chain : List S
             simp only [hl] at hv ⊢
             split at hv
             · simp at hv
+            · simp at hv
             · rename_i rules hr
               cases hv
               have ih := loadWith_edges vfs who (fun h m => twice (setHref fuel vfs who (full :: parent :: rest) h m))
@@ -887,6 +900,361 @@ theorem normpath_joinWith (cs : List Str) (f : Str) (h0 : ∀ s ∈ cs ++ [f], c
       | nil => simp at hlast; subst hlast; simp [joinWith] at e; exact hf.1 e
       | cons b u => simp [joinWith] at e
   simp [normpath, hj.1, hi, hsplit, hres]
+
+
+/-! ## `replaceUrls` is local: the replacer only matters on the URLs of the sheet -/
+
+abbrev Repl := Str → Except Err Str
+
+theorem replComps_congr (f f' : Repl) : ∀ cs : List Comp, (∀ u ∈ compUris cs, f u = f' u) →
+    replComps f cs = replComps f' cs
+  | [], _ => rfl
+  | .uri u :: cs, h => by
+    have hu : f u = f' u := h u (by simp [compUris, List.filterMap_cons, Comp.uri?])
+    have ih := replComps_congr f f' cs (fun v hv => h v (by
+      simp only [compUris, List.filterMap_cons, Comp.uri?] at hv ⊢; exact List.mem_cons_of_mem _ hv))
+    simp [replComps, hu, ih]
+  | .tok t :: cs, h => by
+    have ih := replComps_congr f f' cs (fun v hv => h v (by
+      simpa [compUris, List.filterMap_cons, Comp.uri?] using hv))
+    simp [replComps, ih]
+  | .fn n a :: cs, h => by
+    have ih := replComps_congr f f' cs (fun v hv => h v (by
+      simpa [compUris, List.filterMap_cons, Comp.uri?] using hv))
+    simp [replComps, ih]
+
+theorem replStyle_congr (f f' : Repl) : ∀ st : Style, (∀ u ∈ uriValues st, f u = f' u) →
+    replStyle f st = replStyle f' st
+  | [], _ => rfl
+  | d :: ds, h => by
+    rw [uriValues_cons] at h
+    have h1 := replComps_congr f f' d.value (fun u hu => h u (List.mem_append_left _ hu))
+    have h2 := replStyle_congr f f' ds (fun u hu => h u (List.mem_append_right _ hu))
+    simp [replStyle, h1, h2]
+
+theorem replMargins_congr (f f' : Repl) : ∀ ms : List (Str × Style), (∀ u ∈ marginUris ms, f u = f' u) →
+    replMargins f ms = replMargins f' ms
+  | [], _ => rfl
+  | m :: ms, h => by
+    have h1 := replStyle_congr f f' m.2 (fun u hu => h u (by simp [marginUris]; exact Or.inl hu))
+    have h2 := replMargins_congr f f' ms (fun u hu => h u (by
+      simp only [marginUris, List.flatMap_cons, List.mem_append] at hu ⊢; exact Or.inr hu))
+    simp [replMargins, h1, h2]
+
+mutual
+theorem replRule_congr (f f' : Repl) : ∀ r : Rule, (∀ u ∈ ruleUris r, f u = f' u) → replRule f r = replRule f' r
+  | .style sel st, h => by
+    have := replStyle_congr f f' st (fun u hu => h u (by simpa [ruleUris, styleDecls] using hu))
+    simp [replRule, this]
+  | .fontface st, h => by
+    have := replStyle_congr f f' st (fun u hu => h u (by simpa [ruleUris, styleDecls] using hu))
+    simp [replRule, this]
+  | .page sel st ms, h => by
+    simp only [ruleUris, styleDecls_page_uris] at h
+    have h1 := replStyle_congr f f' st (fun u hu => h u (List.mem_append_left _ hu))
+    have h2 := replMargins_congr f f' ms (fun u hu => h u (List.mem_append_right _ hu))
+    simp [replRule, h1, h2]
+  | .media m rs, h => by
+    have := replRules_congr f f' rs (fun u hu => h u (by simpa [ruleUris, rulesUris, styleDecls] using hu))
+    simp [replRule, this]
+  | .charset _, _ => by simp [replRule]
+  | .comment _, _ => by simp [replRule]
+  | .imp _ _ _ _ _, _ => by simp [replRule]
+  | .ns _ _, _ => by simp [replRule]
+  | .unknown _, _ => by simp [replRule]
+theorem replRules_congr (f f' : Repl) : ∀ rs : List Rule, (∀ u ∈ rulesUris rs, f u = f' u) →
+    replRules f rs = replRules f' rs
+  | [], _ => rfl
+  | r :: rs, h => by
+    rw [rulesUris_cons] at h
+    have h1 := replRule_congr f f' r (fun u hu => h u (List.mem_append_left _ hu))
+    have h2 := replRules_congr f f' rs (fun u hu => h u (List.mem_append_right _ hu))
+    simp [replRules, h1, h2]
+end
+
+theorem replImports_congr (f f' : Repl) (reload : Str → Bool × Str × Sheet) : ∀ sh : Sheet,
+    (∀ u ∈ importHrefs sh, f u = f' u) → replImports f reload sh = replImports f' reload sh
+  | [], _ => rfl
+  | .imp h m fd t s :: rs, hh => by
+    have h1 : f h = f' h := hh h (by simp [importHrefs])
+    have h2 := replImports_congr f f' reload rs (fun u hu => hh u (by simp [importHrefs, hu]))
+    simp [replImports, h1, h2]
+  | .style _ _ :: rs, hh => by
+    have h2 := replImports_congr f f' reload rs (fun u hu => hh u (by simpa [importHrefs] using hu))
+    simp [replImports, h2]
+  | .fontface _ :: rs, hh => by
+    have h2 := replImports_congr f f' reload rs (fun u hu => hh u (by simpa [importHrefs] using hu))
+    simp [replImports, h2]
+  | .page _ _ _ :: rs, hh => by
+    have h2 := replImports_congr f f' reload rs (fun u hu => hh u (by simpa [importHrefs] using hu))
+    simp [replImports, h2]
+  | .media _ _ :: rs, hh => by
+    have h2 := replImports_congr f f' reload rs (fun u hu => hh u (by simpa [importHrefs] using hu))
+    simp [replImports, h2]
+  | .charset _ :: rs, hh => by
+    have h2 := replImports_congr f f' reload rs (fun u hu => hh u (by simpa [importHrefs] using hu))
+    simp [replImports, h2]
+  | .comment _ :: rs, hh => by
+    have h2 := replImports_congr f f' reload rs (fun u hu => hh u (by simpa [importHrefs] using hu))
+    simp [replImports, h2]
+  | .ns _ _ :: rs, hh => by
+    have h2 := replImports_congr f f' reload rs (fun u hu => hh u (by simpa [importHrefs] using hu))
+    simp [replImports, h2]
+  | .unknown _ :: rs, hh => by
+    have h2 := replImports_congr f f' reload rs (fun u hu => hh u (by simpa [importHrefs] using hu))
+    simp [replImports, h2]
+
+/-- replacing import hrefs leaves the declaration blocks alone, whatever the replacer does -/
+theorem replImports_styleDecls (f : Repl) (reload : Str → Bool × Str × Sheet) : ∀ (sh : Sheet) (a : Sheet × List Str),
+    replImports f reload sh = .ok a → styleDeclsL a.1 = styleDeclsL sh
+  | [], a, h => by simp [replImports] at h; subst h; rfl
+  | .imp hr m fd t s :: rs, a, h => by
+    simp only [replImports] at h
+    split at h
+    · simp at h
+    · split at h
+      · simp at h
+      · rename_i r hr2
+        simp at h; subst h
+        simp [styleDeclsL, styleDecls, replImports_styleDecls f reload rs r hr2]
+  | .style _ _ :: rs, a, h => by
+    simp only [replImports] at h
+    split at h
+    · simp at h
+    · rename_i q hq
+      simp at h; subst h
+      simp [styleDeclsL, replImports_styleDecls f reload rs q hq]
+  | .fontface _ :: rs, a, h => by
+    simp only [replImports] at h
+    split at h
+    · simp at h
+    · rename_i q hq
+      simp at h; subst h
+      simp [styleDeclsL, replImports_styleDecls f reload rs q hq]
+  | .page _ _ _ :: rs, a, h => by
+    simp only [replImports] at h
+    split at h
+    · simp at h
+    · rename_i q hq
+      simp at h; subst h
+      simp [styleDeclsL, replImports_styleDecls f reload rs q hq]
+  | .media _ _ :: rs, a, h => by
+    simp only [replImports] at h
+    split at h
+    · simp at h
+    · rename_i q hq
+      simp at h; subst h
+      simp [styleDeclsL, replImports_styleDecls f reload rs q hq]
+  | .charset _ :: rs, a, h => by
+    simp only [replImports] at h
+    split at h
+    · simp at h
+    · rename_i q hq
+      simp at h; subst h
+      simp [styleDeclsL, replImports_styleDecls f reload rs q hq]
+  | .comment _ :: rs, a, h => by
+    simp only [replImports] at h
+    split at h
+    · simp at h
+    · rename_i q hq
+      simp at h; subst h
+      simp [styleDeclsL, replImports_styleDecls f reload rs q hq]
+  | .ns _ _ :: rs, a, h => by
+    simp only [replImports] at h
+    split at h
+    · simp at h
+    · rename_i q hq
+      simp at h; subst h
+      simp [styleDeclsL, replImports_styleDecls f reload rs q hq]
+  | .unknown _ :: rs, a, h => by
+    simp only [replImports] at h
+    split at h
+    · simp at h
+    · rename_i q hq
+      simp at h; subst h
+      simp [styleDeclsL, replImports_styleDecls f reload rs q hq]
+
+/-- `replaceUrls` consults the replacer on the URLs `getUrls` yields and on nothing else -/
+theorem replaceUrls_congr (f f' : Repl) (reload : Str → Bool × Str × Sheet) (sh : Sheet)
+    (h : ∀ u ∈ getUrls sh, f u = f' u) : replaceUrls f reload false sh = replaceUrls f' reload false sh := by
+  have hi := replImports_congr f f' reload sh (fun u hu => h u (by simp [getUrls, hu]))
+  simp only [replaceUrls, Bool.false_eq_true, ↓reduceIte, hi]
+  cases ha : replImports f' reload sh with
+  | error e => rfl
+  | ok a =>
+    have hs := replImports_styleDecls f' reload sh a ha
+    have := replRules_congr f f' a.1 (fun u hu => h u (by
+      simp only [rulesUris, hs] at hu
+      simp [getUrls, hu]))
+    simp [this]
+
+
+/-! ## the loader's fuel is never used up -/
+
+/-- files of the virtual file system that are not yet on the import chain -/
+def unvisited : Vfs → List Str → Nat
+  | [], _ => 0
+  | e :: es, chain => (if e.1 ∈ chain then 0 else 1) + unvisited es chain
+
+theorem unvisited_le : ∀ (vfs : Vfs) (chain : List Str), unvisited vfs chain ≤ vfs.length
+  | [], _ => by simp [unvisited]
+  | e :: es, chain => by
+    have := unvisited_le es chain
+    simp only [unvisited, List.length_cons]
+    split <;> omega
+
+theorem unvisited_mono (chain : List Str) (full : Str) : ∀ vfs : Vfs,
+    unvisited vfs (full :: chain) ≤ unvisited vfs chain
+  | [] => by simp [unvisited]
+  | e :: es => by
+    have ih := unvisited_mono chain full es
+    simp only [unvisited, List.mem_cons]
+    by_cases h1 : e.1 ∈ chain
+    · simp [h1]; exact ih
+    · by_cases h2 : e.1 = full
+      · simp [h1, h2]; omega
+      · simp [h1, h2]; exact ih
+
+theorem unvisited_lt (chain : List Str) (full : Str) (hc : full ∉ chain) : ∀ (vfs : Vfs) (raw : Sheet),
+    vfsLookup vfs full = some raw → unvisited vfs (full :: chain) < unvisited vfs chain
+  | [], raw, h => by simp [vfsLookup] at h
+  | e :: es, raw, h => by
+    have mono := unvisited_mono chain full es
+    unfold vfsLookup at h
+    simp only [unvisited, List.mem_cons]
+    by_cases he : e.1 = full
+    · simp [he, hc]; omega
+    · simp only [he, ↓reduceIte] at h
+      have ih := unvisited_lt chain full hc es raw h
+      by_cases hm : e.1 ∈ chain
+      · simp [hm]; exact ih
+      · simp [hm, he]; exact ih
+
+theorem urlsplit_ne_fuel (u d : Str) : urlsplit u d ≠ .error .fuel := by
+  unfold urlsplit
+  simp only
+  repeat' split
+  all_goals simp
+
+theorem urlparse_ne_fuel (u d : Str) : urlparse u d ≠ .error .fuel := by
+  unfold urlparse
+  split
+  · rename_i e he
+    intro h
+    simp at h
+    subst h
+    exact urlsplit_ne_fuel u d he
+  · simp
+
+theorem urljoin_ne_fuel (b u : Str) : urljoin b u ≠ .error .fuel := by
+  unfold urljoin
+  split
+  · simp
+  · split
+    · simp
+    · split
+      · rename_i e he
+        intro h; simp at h; subst h; exact urlparse_ne_fuel _ _ he
+      · split
+        · rename_i e he
+          intro h; simp at h; subst h; exact urlparse_ne_fuel _ _ he
+        · simp only
+          repeat' split
+          all_goals simp
+
+theorem twice_val (a : Res Rule) : (twice a).val = a.val := by
+  rcases twice_cases a with e | ⟨_, _, _, _, _, e⟩ <;> rw [e]
+
+/-- an error of `loadWith` is an error of one of the import loads -/
+theorem loadWith_error (imp : Str → Str → Res Rule) : ∀ (raw : Sheet) (e : Err), (loadWith imp raw).val = .error e →
+    ∃ h m, (imp h m).val = .error e
+  | [], e, hv => by simp [loadWith] at hv
+  | .imp hr m f t s :: rs, e, hv => by
+    simp only [loadWith] at hv
+    split at hv
+    · rename_i e' he'
+      simp at hv; subst hv
+      exact ⟨hr, m, he'⟩
+    · split at hv
+      · rename_i e' he'
+        simp at hv; subst hv
+        exact loadWith_error imp rs e' he'
+      · simp at hv
+  | .charset _ :: rs, e, hv => by
+    simp only [loadWith] at hv
+    split at hv
+    · rename_i e' he'; simp at hv; subst hv; exact loadWith_error imp rs e' he'
+    · simp at hv
+  | .comment _ :: rs, e, hv => by
+    simp only [loadWith] at hv
+    split at hv
+    · rename_i e' he'; simp at hv; subst hv; exact loadWith_error imp rs e' he'
+    · simp at hv
+  | .ns _ _ :: rs, e, hv => by
+    simp only [loadWith] at hv
+    split at hv
+    · rename_i e' he'; simp at hv; subst hv; exact loadWith_error imp rs e' he'
+    · simp at hv
+  | .style _ _ :: rs, e, hv => by
+    simp only [loadWith] at hv
+    split at hv
+    · rename_i e' he'; simp at hv; subst hv; exact loadWith_error imp rs e' he'
+    · simp at hv
+  | .media _ _ :: rs, e, hv => by
+    simp only [loadWith] at hv
+    split at hv
+    · rename_i e' he'; simp at hv; subst hv; exact loadWith_error imp rs e' he'
+    · simp at hv
+  | .page _ _ _ :: rs, e, hv => by
+    simp only [loadWith] at hv
+    split at hv
+    · rename_i e' he'; simp at hv; subst hv; exact loadWith_error imp rs e' he'
+    · simp at hv
+  | .fontface _ :: rs, e, hv => by
+    simp only [loadWith] at hv
+    split at hv
+    · rename_i e' he'; simp at hv; subst hv; exact loadWith_error imp rs e' he'
+    · simp at hv
+  | .unknown _ :: rs, e, hv => by
+    simp only [loadWith] at hv
+    split at hv
+    · rename_i e' he'; simp at hv; subst hv; exact loadWith_error imp rs e' he'
+    · simp at hv
+
+/-- the fuel is never used up: along an import chain no file occurs twice (recursion guard), so the depth is at
+most the number of files not yet on the chain -/
+theorem setHref_noFuel (vfs : Vfs) (who : Who) : ∀ (fuel : Nat) (chain : List Str) (href media : Str),
+    unvisited vfs chain < fuel → (setHref fuel vfs who chain href media).val ≠ .error .fuel
+  | 0, _, _, _, h => by omega
+  | fuel + 1, chain, href, media, h => by
+    unfold setHref
+    cases chain with
+    | nil => simp
+    | cons parent rest =>
+      simp only
+      cases hj : urljoin parent href with
+      | error e =>
+        simp only
+        intro he
+        simp at he
+        exact urljoin_ne_fuel parent href (he ▸ hj)
+      | ok full =>
+        simp only
+        by_cases hc : full ∈ parent :: rest
+        · simp [hc]
+        · simp only [hc, ↓reduceIte]
+          cases hl : vfsLookup vfs full with
+          | none => simp
+          | some raw =>
+            simp only
+            have hlt := unvisited_lt (parent :: rest) full hc vfs raw hl
+            split
+            · rename_i hf
+              obtain ⟨h', m', he⟩ := loadWith_error _ raw .fuel hf
+              rw [twice_val] at he
+              exact absurd he (setHref_noFuel vfs who fuel (full :: parent :: rest) h' m' (by omega))
+            · simp
+            · simp
 
 
 end CssVerif.Urls
